@@ -160,6 +160,13 @@ func run(c *vh.Ctx, cs Case) {
 			nt > common.SnapshotTransactionsMaximum || (sn.Round == 0 && nt != 1) {
 			wellformed = false
 		}
+		for i, a := range sn.Txs {
+			for _, b := range sn.Txs[:i] {
+				if a == b {
+					wellformed = false // the encoder refuses a repeated transaction
+				}
+			}
+		}
 		if why := invariant(round.Snapshots); why != "" {
 			c.Fail(why, "after an accept the live round violates: "+why, cs)
 		}
